@@ -128,6 +128,17 @@ func (o *opgen) body(typ string, depth int) string {
 			}
 		}
 		items = append(items, item{key, text})
+		if f.incDep && o.r.Chance(1, 3) {
+			// the same field once more under a fresh alias with its own includeDeprecated argument:
+			// sibling selections must not influence each other
+			k2 := fmt.Sprintf("dep%d", len(items))
+			t2 := k2 + ": " + f.name + o.incDepArg()
+			if f.typ != "" {
+				t2 += " { " + o.body(f.typ, depth-1) + " }"
+			}
+			used[k2] = true
+			items = append(items, item{k2, t2})
+		}
 	}
 	if o.nameSel && (typ == "__Type" || typ == "__Directive") {
 		add(ifield{name: "name"}, true)
